@@ -84,7 +84,8 @@ struct FuncInfo {
   unsigned nloops = 0;
   bool defined = false;
   std::string qname, loc;
-  std::vector<std::string> paramNames;
+  std::vector<std::string> paramNames, paramDecls;
+  std::string retType;
 };
 
 class Lowerer {
